@@ -91,6 +91,28 @@ pub fn tokens(u: &mut Unstructured, max: usize) -> Vec<Tok> {
     (0..n).map(|_| token(u)).collect()
 }
 
+/// Token sequence for the structural targets: the generated tokens are rendered and read back by
+/// the reference tokenizer, so that the sequence handed to the oracle is exactly what the source
+/// text denotes (None when the text is outside the claimed lexical domain).
+pub fn relexed(u: &mut Unstructured, max: usize) -> Option<Vec<Tok>> {
+    let toks = tokens(u, max);
+    let src = refmodel::tok::render_spaced(&toks);
+    match refmodel::tok::lex(&src) {
+        Ok(o) if !o.d6 => Some(o.toks),
+        _ => None,
+    }
+}
+
+/// Report unless the failure is the harness's own consistency alarm (not a verdict on evalexpr).
+pub fn report_checked(property: &str, r: Result<(), Fail>) {
+    if let Err(f) = r {
+        if f.signature.starts_with("HARNESS/") {
+            return;
+        }
+        report(property, f);
+    }
+}
+
 /// Report an oracle violation found by a fuzz target.
 pub fn report(property: &str, f: Fail) -> ! {
     let root = vcore::verif_root();
